@@ -169,3 +169,35 @@ def sink_blocks(P, fn):
                 if c is not None and c.body is not None and effects(P, c):
                     out.append((b, "closure with effects %s" % c.path))
     return out
+
+
+# ---------------------------------------------------------------------------------------
+# pair roles
+
+class PairRoles:
+    def __init__(self, P):
+        self.P = P
+        self.execute, self.arms = dispatch_arms(P, "pair")
+        self.swap_direct = handler_of(P, "pair", "Swap")
+        self.provide = handler_of(P, "pair", "ProvideLiquidity")
+        self.receive = handler_of(P, "pair", "Receive")
+        self.update_decimals = handler_of(P, "pair", "UpdateNativeTokenDecimals")
+        self.swap_hook = hook_handler_of(P, "pair", "Swap")
+        self.withdraw_hook = hook_handler_of(P, "pair", "WithdrawLiquidity")
+        self.swap_handler = self.swap_hook[3]
+        if self.swap_direct[3].path != self.swap_handler.path:
+            raise AnchorMissing("direct and hook swap arms forward to different handlers: %s vs %s" % (self.swap_direct[3].path, self.swap_handler.path))
+        self.provide_handler = self.provide[3]
+        self.withdraw_handler = self.withdraw_hook[3]
+        self.recv_fn = self.receive[3]
+        self.funds_check = self._funds_check()
+
+    def _funds_check(self):
+        hits = [f for f in self.P.prod_fns() if f.kind in ("fn", "assoc_fn") and f.sig and
+                re.search(r"fn\(&'?\w* ?haloswap::asset::Asset, &'?\w* ?cosmwasm_std::MessageInfo\) -> std::result::Result<\(\), cosmwasm_std::StdError>", f.sig)]
+        if len(hits) != 1:
+            raise AnchorMissing("native-funds check (fn(&Asset,&MessageInfo)->StdResult<()>): %d candidates" % len(hits))
+        return hits[0]
+
+    def calls_to(self, fn, callee):
+        return [b for b, p, fr, t in self.P.calls(fn) if p and (generic_path(p) == callee.path or p == callee.path)]
